@@ -111,12 +111,33 @@ def render_tagexpr_v1(ast, rng=None):
 # ---------------------------------------------------------------------------
 # step library
 # ---------------------------------------------------------------------------
-FIELD_TYPES = ["d", "w", "f", "", "Color"]
+FIELD_TYPES = ["d", "w", "f", "", "Color", "Num"]
 COLORS = ["RED", "GREEN", "BLUE"]
+BASE_RX = {"d": r"\d+", "f": r"\d+\.\d+", "Color": r"[A-Z]+", "Num": r"\d+"}
+
+
+def tok_card(tok):
+    """cfparse cardinality of a field token: '' | '+' | '?' | '*'."""
+    return tok[3] if tok[0] == "fld" and len(tok) > 3 else ""
+
+
+def gen_field_value(rng, tok):
+    card = tok_card(tok)
+    if not card:
+        return gen_value(rng, tok[2])
+    if card == "?":
+        return gen_value(rng, tok[2]) if rng.random() < 0.6 else ""
+    n = rng.randint(1, 3) if card == "+" else rng.randint(0, 2)
+    out = ""
+    for k in range(n):
+        if k:
+            out += rng.choice([",", ", ", " , "])
+        out += gen_value(rng, tok[2])
+    return out
 
 
 def gen_value(rng, ftype):
-    if ftype == "d":
+    if ftype in ("d", "Num"):
         return str(rng.randint(1, 999))
     if ftype == "f":
         return "%d.%d" % (rng.randint(0, 99), rng.randint(0, 99))
@@ -129,10 +150,14 @@ def gen_value(rng, ftype):
                     for _ in range(n))
 
 
-def convert_value(ftype, text, matcher):
+def convert_value(ftype, text, matcher, card=""):
+    if card == "?":
+        return None if text == "" else convert_value(ftype, text, matcher)
+    if card in ("+", "*"):
+        return [convert_value(ftype, x.strip(), matcher) for x in text.split(",")] if text != "" else []
     if matcher == "re":
         return text
-    if ftype == "d":
+    if ftype in ("d", "Num"):
         return int(text)
     if ftype == "f":
         return float(text)
@@ -154,13 +179,13 @@ def render_pattern(d):
             # the optional part swallows its own leading blank: attach to the previous token
             parts[-1] = parts[-1] + "(?: %s %s)?" % (lit, grp)
             continue
-        _, name, ftype = tok
+        name, ftype = tok[1], tok[2]
         if d["matcher"] == "re":
             rx = {"d": r"\d+", "f": r"\d+\.\d+", "w": r"[A-H]+",
                   "": r"[K-P ]+", "Color": r"[A-Z]+"}[ftype]
             parts.append("(?P<%s>%s)" % (name, rx) if name else "(%s)" % rx)
         else:
-            spec = ":" + ftype if ftype else ""
+            spec = ":" + ftype + tok_card(tok) if ftype else ""
             parts.append("{%s%s}" % (name or "", spec))
     return " ".join(parts)
 
@@ -181,7 +206,13 @@ def def_regex(d):
                 rx = {"d": r"\d+", "f": r"\d+\.\d+", "w": r"[A-H]+", "": r"[K-P ]+", "Color": r"[A-Z]+"}[ftype]
             else:
                 # documented parse semantics: an untyped field takes any text (non-greedy)
-                rx = {"d": r"\d+", "f": r"\d+\.\d+", "w": r"\w+", "": r".+?", "Color": r"[A-Z]+"}[ftype]
+                rx = {"d": r"\d+", "f": r"\d+\.\d+", "w": r"\w+", "": r".+?", "Color": r"[A-Z]+", "Num": r"\d+"}[ftype]
+                card = tok_card(tok)
+                if card:
+                    # documented cfparse cardinality: '?' zero or one, '+' one or more, '*' zero or more,
+                    # many = items separated by a comma with optional blanks around it
+                    many = r"(?:%s)(?:\s*,\s*(?:%s))*" % (rx, rx)
+                    rx = {"?": "(?:%s)?" % rx, "+": many, "*": "(?:%s)?" % many}[card]
             parts.append("(" + rx + ")")
     return re.compile("^" + " ".join(parts) + "$")
 
@@ -202,10 +233,13 @@ def gen_steplib(rng, size):
         for j in range(nf):
             toks.append(["lit", rng.choice(["takes", "with", "has", "of"])])
             ftype = rng.choice(FIELD_TYPES)
-            if matcher == "re" and ftype == "Color":
+            if matcher == "re" and ftype in ("Color", "Num"):
                 ftype = "w"
             named = rng.random() < 0.7
-            toks.append(["fld", ("p%d" % j) if named else "", ftype])
+            tok = ["fld", ("p%d" % j) if named else "", ftype]
+            if matcher == "cfparse" and ftype in ("Color", "Num") and rng.random() < 0.6:
+                tok.append(rng.choice(["+", "+", "?", "*"]))
+            toks.append(tok)
         if matcher == "re" and rng.random() < 0.5:
             # optional regex group(s); an anonymous optional group before another anonymous group
             # makes positional order observable
@@ -213,7 +247,8 @@ def gen_steplib(rng, size):
             if rng.random() < 0.6:
                 toks.append(["lit", "then"])
                 toks.append(["fld", "" if rng.random() < 0.7 else "p9", rng.choice(["d", "w"])])
-        if rng.random() < 0.5:
+        if rng.random() < 0.5 or tok_card(toks[-1]) in ("?", "*"):
+            # (a field that may be empty is never last: the parser strips the step text)
             toks.append(["lit", rng.choice(["units", "done", "ok"])])
         defs.append({"id": "d%d" % i, "type": dtype, "matcher": matcher,
                      "tokens": toks, "module": rng.randrange(nmods),
@@ -257,7 +292,7 @@ def instantiate(rng, d, placeholder=None):
             parts.append("<%s>" % placeholder)
             used = True
         else:
-            parts.append(gen_value(rng, tok[2]))
+            parts.append(gen_field_value(rng, tok))
     return " ".join(parts)
 
 
